@@ -7,6 +7,7 @@ import (
 	"fmt"
 	"hash/crc32"
 	"math/rand"
+	"regexp"
 	"runtime/debug"
 	"sort"
 	"strconv"
@@ -500,6 +501,119 @@ func c19Mutate(r *rand.Rand, text []byte) ([]byte, string) {
 	return d, strings.Join(ops, "+")
 }
 
+// c19FieldRe is the documented shape of a field line ("type, blanks with at least one space, name").
+var c19FieldRe = regexp.MustCompile(`([^ \t]+)[ \t]* [ \t]*([a-zA-Z][a-zA-Z0-9_]*)`)
+
+// c19PredictCycle tells whether resolving the definition from its top-level part runs into a type that is
+// already being resolved. It is used on generated hostile inputs only, to keep the number of inputs
+// that kill a worker fixed (every such input costs a restart and they all show the same defect); it
+// plays no part in any verdict. It follows the resolution rules line by line, stops at the first line the
+// parser would reject, and gives up (false) after 200 000 lines.
+func c19PredictCycle(pkg string, data []byte) bool {
+	var defs []string
+	var cur strings.Builder
+	for _, line := range strings.Split(string(data), "\n") {
+		if strings.HasPrefix(strings.TrimSpace(line), "=") {
+			defs = append(defs, cur.String())
+			cur.Reset()
+			continue
+		}
+		cur.WriteString(line + "\n")
+	}
+	if cur.Len() > 0 {
+		defs = append(defs, cur.String())
+	}
+	if len(defs) < 2 {
+		return false
+	}
+	deps := map[string]string{}
+	for _, d := range defs[1:] {
+		lines := strings.Split(d, "\n")
+		deps[strings.TrimPrefix(strings.TrimSpace(lines[0]), "MSG: ")] = strings.Join(lines[1:], "\n")
+	}
+	prim := map[string]bool{}
+	for _, p := range rosgen.Primitives {
+		prim[p] = true
+	}
+	steps := 0
+	onPath := map[[2]string]bool{}
+	var walk func(pkg, body string) (cycle, stop bool)
+	walk = func(pkg, body string) (bool, bool) {
+		key := [2]string{pkg, body}
+		if onPath[key] {
+			return true, true
+		}
+		onPath[key] = true
+		defer delete(onPath, key)
+		for _, line := range strings.Split(body, "\n") {
+			if steps++; steps > 200000 {
+				return false, true
+			}
+			line = strings.TrimSpace(line)
+			if line == "" || strings.HasPrefix(line, "#") || strings.Contains(strings.Split(line, "#")[0], "=") {
+				continue
+			}
+			m := c19FieldRe.FindStringSubmatch(line)
+			if len(m) < 3 {
+				return false, true
+			}
+			t := m[1]
+			if strings.Contains(t, "[") && strings.Contains(t, "]") {
+				l, r := strings.Index(t, "["), strings.Index(t, "]")
+				if r < l {
+					return false, true
+				}
+				if size := t[l+1 : r]; size == "" {
+					t = t[:l]
+				} else if _, err := strconv.Atoi(size); err == nil {
+					t = t[:l]
+				}
+			}
+			if prim[t] {
+				continue
+			}
+			fp, qualified := pkg, strings.Contains(t, "/")
+			if qualified {
+				fp = strings.Split(t, "/")[0]
+			}
+			sub, ok := deps[t]
+			switch {
+			case ok:
+			case t == "Header":
+				if sub, ok = deps["std_msgs/Header"]; !ok {
+					return false, true
+				}
+			case !qualified:
+				if sub, ok = deps[fp+"/"+t]; !ok {
+					return false, true
+				}
+			}
+			if c, stop := walk(fp, sub); c || stop {
+				return c, true
+			}
+		}
+		return false, false
+	}
+	c, _ := walk(pkg, defs[0])
+	return c
+}
+
+// c19TopLevelOnly cuts a definition before its first separator line (no sections, hence no cycle).
+func c19TopLevelOnly(data []byte) []byte {
+	off := 0
+	for _, line := range bytes.SplitAfter(data, []byte("\n")) {
+		if bytes.HasPrefix(bytes.TrimSpace(line), []byte("=")) {
+			break
+		}
+		off += len(line)
+	}
+	return data[:off]
+}
+
+// c19AccidentalCycles is the number of generated (not hand-built) hostile inputs per run that may contain a
+// reference cycle; further ones are cut down to their top-level part.
+const c19AccidentalCycles = 12
+
 // c19HostileInput builds hostile input i (i counts after the crafted list).
 func c19HostileInput(ctx *core.Ctx, i int, nBase int) c19Input {
 	r := gen.Rng(ctx.Seed, "c19hostile", i)
@@ -531,8 +645,7 @@ func c19HostileInput(ctx *core.Ctx, i int, nBase int) c19Input {
 		return c19Input{"random-acyclic-sections", "p", c19Dag(r)}
 	default:
 		g, text, _ := c19ValidCase(ctx, r.Intn(nBase))
-		d, ops := c19Mutate(r, text)
-		_ = ops
+		d, _ := c19Mutate(r, text)
 		return c19Input{"mutated-valid", g.Top.Pkg, d}
 	}
 }
@@ -576,8 +689,34 @@ func c19OutcomeClass(o string) string {
 	return firstWord(o)
 }
 
+// c19Violations keeps the report readable: per run at most c19PerKindCap executions are listed for a
+// kind that repeats by construction (every tab-only definition, every ']'-before-'[' input), so that
+// the rarer kinds - every worker death in particular - are always listed within the framework's
+// overall limit. Known findings are always passed on (they are only counted). All executions are
+// counted per kind in the evidence ("violation_kinds").
+type c19Violations struct{ seen map[string]int }
+
+const c19PerKindCap = 12
+
+func (v *c19Violations) report(rep *core.Report, kind, msg string, it *WorkItem, label string) {
+	if v.seen == nil {
+		v.seen = map[string]int{}
+	}
+	v.seen[kind]++
+	core.NotePattern(rep, "violation_kinds", kind)
+	limit := c19PerKindCap
+	if strings.HasPrefix(kind, "fatal:") || kind == "cpu-budget-exceeded" || kind == "tree-mismatch" || kind == "valid-definition-rejected" {
+		limit = 60
+	}
+	if v.seen[kind] <= limit || rep.IsKnown(kind) {
+		rep.Violate(kind, msg, c19Witness(it, label))
+		return
+	}
+	rep.Count("violations_beyond_per_kind_cap", 1)
+}
+
 // judgeC19 applies the oracle to every item of one round. Returns the number of items without a result.
-func judgeC19(rep *core.Report, items []WorkItem, results map[int]*ItemResult, label string) int {
+func judgeC19(rep *core.Report, vio *c19Violations, items []WorkItem, results map[int]*ItemResult, label string) int {
 	missing := 0
 	for k := range items {
 		it := &items[k]
@@ -598,13 +737,13 @@ func judgeC19(rep *core.Report, items []WorkItem, results map[int]*ItemResult, l
 		if res.Fatal != "" {
 			rep.Count("outcomes_worker_died", 1)
 			core.NotePattern(rep, group, family+"=fatal")
-			rep.Violate("fatal:"+res.Fatal, fmt.Sprintf("%s: the process died in %s: %s; definition starts %q", desc, res.Entry, res.Fatal, c19Preview(it.Data, 160)), c19Witness(it, label))
+			vio.report(rep, "fatal:"+res.Fatal, fmt.Sprintf("%s: the process died in %s: %s; definition starts %q", desc, res.Entry, res.Fatal, c19Preview(it.Data, 160)), it, label)
 			continue
 		}
 		if res.Timeout {
 			rep.Count("outcomes_cpu_budget_exceeded", 1)
 			core.NotePattern(rep, group, family+"=cpu-budget-exceeded")
-			rep.Violate("cpu-budget-exceeded", fmt.Sprintf("%s: %s consumed more than %d CPU-seconds twice", desc, res.Entry, cpuBudgetSecs), c19Witness(it, label))
+			vio.report(rep, "cpu-budget-exceeded", fmt.Sprintf("%s: %s consumed more than %d CPU-seconds twice", desc, res.Entry, cpuBudgetSecs), it, label)
 			continue
 		}
 		o, ok := res.Outcomes[c19Entry]
@@ -616,7 +755,7 @@ func judgeC19(rep *core.Report, items []WorkItem, results map[int]*ItemResult, l
 		switch {
 		case strings.HasPrefix(o, "panic:"):
 			rep.Count("outcomes_panic", 1)
-			rep.Violate(o, fmt.Sprintf("%s: ParseMessageDefinition panicked: %s; definition starts %q", desc, strings.TrimPrefix(o, "panic:"), c19Preview(it.Data, 160)), c19Witness(it, label))
+			vio.report(rep, o, fmt.Sprintf("%s: ParseMessageDefinition panicked: %s; definition starts %q", desc, strings.TrimPrefix(o, "panic:"), c19Preview(it.Data, 160)), it, label)
 		case strings.HasPrefix(o, "harness-error"):
 			rep.Inconclusive(desc + ": " + o)
 		case !valid:
@@ -632,11 +771,11 @@ func judgeC19(rep *core.Report, items []WorkItem, results map[int]*ItemResult, l
 				rep.Distinct("valid", len(it.Data), crc32.ChecksumIEEE(it.Data), aux.Package)
 			}
 		case tab:
-			rep.Violate("tab-separator-rejected", fmt.Sprintf("%s: type and field name separated by tab characters only: %s; definition:\n%s", desc, o, c19Preview(it.Data, 400)), c19Witness(it, label))
+			vio.report(rep, "tab-separator-rejected", fmt.Sprintf("%s: type and field name separated by tab characters only: %s; definition:\n%s", desc, o, c19Preview(it.Data, 400)), it, label)
 		case strings.HasPrefix(o, "mismatch:"):
-			rep.Violate("tree-mismatch", fmt.Sprintf("%s: parsed tree differs from the generating graph: %s; definition:\n%s", desc, o, c19Preview(it.Data, 400)), c19Witness(it, label))
+			vio.report(rep, "tree-mismatch", fmt.Sprintf("%s: parsed tree differs from the generating graph: %s; definition:\n%s", desc, o, c19Preview(it.Data, 400)), it, label)
 		case strings.HasPrefix(o, "error:"):
-			rep.Violate("valid-definition-rejected", fmt.Sprintf("%s: %s; definition:\n%s", desc, o, c19Preview(it.Data, 400)), c19Witness(it, label))
+			vio.report(rep, "valid-definition-rejected", fmt.Sprintf("%s: %s; definition:\n%s", desc, o, c19Preview(it.Data, 400)), it, label)
 		default:
 			rep.Inconclusive(desc + ": unexpected outcome " + o)
 		}
@@ -652,22 +791,26 @@ func RunC19(ctx *core.Ctx, rep *core.Report) {
 		"The expected tree is computed from the graph alone and compared in the isolated worker with the result of ParseMessageDefinition(top-level package, text) field by field (names, order, BaseType text, IsArray, FixedSize, IsRecord, Items, nested Fields). " +
 		"Hostile inputs: a fixed hand-built list (self-, mutually and cyclically referential types directly and through arrays, reference chains of depth 200 and 5000, trees of 2^12 and 2^16 leaves, ']' before '[', unbalanced brackets, huge/negative/odd array sizes, " +
 		"missing dependencies, empty input, separators only, MSG: lines without type, duplicate sections, 1 MiB lines, NUL bytes, CR/CRLF line endings, malformed field lines), uniformly random byte strings, random strings over a definition-like alphabet, " +
-		"token soups, random ill-formed acyclic sections with hostile array suffixes, and valid definitions mutated by bit flips, byte substitutions, deleted/duplicated/swapped lines, truncation, deleted ranges, inserted brackets and CRLF conversion. " +
-		"Oracle for every input: the call returns a value or an error in an isolated child (stack capped at 256 MiB, 60 CPU-s watchdog): a recovered panic, a dead worker or a CPU overrun is a violation. " +
+		"token soups, random ill-formed acyclic sections with hostile array suffixes, and valid definitions mutated by bit flips, byte substitutions, deleted/duplicated/swapped lines, truncation, deleted ranges, inserted brackets and CRLF conversion. Generated (not hand-built) hostile inputs that contain a reference cycle by accident are limited to 12 per run, further ones are cut to their top-level part (every cycle kills a worker and shows the same defect); the 23 hand-built cycles are always run. " +
+		"Oracle for every input: the call returns a value or an error in an isolated child (goroutine stack capped at 64 MiB for this monitor - room for about 147 000 nested records - address space 16 GiB, 60 CPU-s watchdog): a recovered panic, a dead worker or a CPU overrun is a violation. " +
 		"distinct_nontrivial counts distinct valid definitions with at least two top-level fields that matched, plus distinct hostile inputs on which the parser returned a value or an error."
 	rep.Assumptions = []string{
 		"expected-tree semantics follow the parser's unit tests: BaseType is the type text as written (brackets included for the array itself, excluded for Items); an array is not a record, its Items carry IsRecord/Fields; 'Header' always means std_msgs/Header; nil and empty Fields are the same",
 		"unqualified names are resolved in the package of the containing type (the package written in the reference that led to it), as in ROS and in the unit test 'relative type different from parent type'",
 		"panics are recovered per call inside the worker; fatal terminations are attributed through the journal; a fatal input costs one worker restart and loses no other input",
+		"the worker's stack bound is lowered from the framework's 256 MiB to 64 MiB (debug.SetMaxStack in the entry point): a stack exhaustion then costs about 1 CPU-second instead of 3..15; the acyclic chains of depth 200 and 5000 need about 2.3 MiB",
+		"at most 12 executions are listed per repeating violation kind (60 for worker deaths, mismatches and rejections); all are counted under violation_kinds",
 		"fixed array sizes are 1..2^31-1 (size 0 cannot be told from a variable array in the parser's result type)",
 	}
 	nValid, nHostile := ctx.Pick(3000, 300000), ctx.Pick(20000, 2000000)
 	parallel := 12
 	missing := 0
+	vio := &c19Violations{}
 
 	// valid definitions
 	const validRound = 20000
 	agg := map[string]int64{}
+	tabSampled := false
 	for off := 0; off < nValid; off += validRound {
 		n := min(validRound, nValid-off)
 		items := make([]WorkItem, n)
@@ -678,12 +821,13 @@ func RunC19(ctx *core.Ctx, rep *core.Report) {
 				continue
 			}
 			c19CountGraph(agg, g)
-			if off == 0 && (k < 3 || (g.Stats.TabOnly && k < 400)) {
+			if off == 0 && (k < 3 || (g.Stats.TabOnly && !tabSampled)) {
+				tabSampled = tabSampled || g.Stats.TabOnly
 				rep.Sample(map[string]any{"kind": items[k].Kind, "package": g.Top.Pkg, "definition": c19Preview(items[k].Data, 400), "expected_top_level_fields": g.TopNames(), "depth": g.Stats.Depth})
 			}
 		}
 		results := runIsolated(ctx, "c19", items, parallel, ctx.Pick(250, 1000), rep)
-		missing += judgeC19(rep, items, results, "valid")
+		missing += judgeC19(rep, vio, items, results, "valid")
 	}
 	keys := make([]string, 0, len(agg))
 	for k := range agg {
@@ -716,9 +860,11 @@ func RunC19(ctx *core.Ctx, rep *core.Report) {
 	rep.Count("hostile_crafted_reference_cycles", int64(nCycles))
 	const hostileRound = 100000
 	kinds := map[string]int64{}
+	accidental := 0
 	for off := 0; off < nHostile; off += hostileRound {
 		n := min(hostileRound, nHostile-off)
 		items := make([]WorkItem, n)
+		cyclic := make([]bool, n)
 		core.Parallel(ctx, rep, n, func(k int) {
 			i := off + k
 			var in c19Input
@@ -727,28 +873,43 @@ func RunC19(ctx *core.Ctx, rep *core.Report) {
 			} else {
 				in = c19HostileInput(ctx, i-len(crafted), nValid)
 			}
+			cyclic[k] = i >= len(crafted) && c19PredictCycle(in.pkg, in.text)
 			aux, _ := json.Marshal(c19Aux{Package: in.pkg})
 			items[k] = WorkItem{ID: 10_000_000 + i, Kind: in.kind, Data: in.text, Aux: aux}
 		})
 		for k := range items {
-			kinds[items[k].Kind]++
+			if !cyclic[k] {
+				continue
+			}
+			if accidental < c19AccidentalCycles {
+				accidental++
+				rep.Count("hostile_generated_inputs_with_predicted_cycle_kept", 1)
+				continue
+			}
+			items[k].Data = c19TopLevelOnly(items[k].Data)
+			rep.Count("hostile_generated_inputs_with_predicted_cycle_cut_to_top_level", 1)
+		}
+		for k := range items {
+			kinds[c19Family(items[k].Kind)]++
 		}
 		// spread the crafted inputs (the ones that can kill a worker) over the batches
 		sh := gen.Rng(ctx.Seed, "c19shuffle", off)
 		sh.Shuffle(len(items), func(a, b int) { items[a], items[b] = items[b], items[a] })
 		if off == 0 {
-			for k := range items {
-				if items[k].Kind == "mutated-valid" {
-					rep.Sample(map[string]any{"kind": items[k].Kind, "definition": c19Preview(items[k].Data, 400)})
-					break
+			for _, want := range []string{"mutated-valid", "random-acyclic-sections"} {
+				for k := range items {
+					if items[k].Kind == want {
+						rep.Sample(map[string]any{"kind": items[k].Kind, "definition": c19Preview(items[k].Data, 400)})
+						break
+					}
 				}
 			}
 		}
 		results := runIsolated(ctx, "c19", items, parallel, ctx.Pick(500, 2500), rep)
-		missing += judgeC19(rep, items, results, "hostile")
+		missing += judgeC19(rep, vio, items, results, "hostile")
 	}
 	for k, v := range kinds {
-		rep.Count("hostile_"+k, v)
+		rep.Count("hostile_inputs_"+k, v)
 	}
 	if missing > 0 {
 		rep.Inconclusive(fmt.Sprintf("%d inputs have no result", missing))
@@ -789,7 +950,7 @@ func ReplayC19(ctx *core.Ctx, rep *core.Report, w map[string]any) {
 	items := []WorkItem{{ID: id, Kind: kind, Data: data, Aux: ab}}
 	fmt.Printf("replaying %s input %d (package %q, %d bytes)\n", kind, id, aux.Package, len(data))
 	results := runIsolated(ctx, "c19", items, 1, 1, rep)
-	if judgeC19(rep, items, results, "replay") > 0 {
+	if judgeC19(rep, &c19Violations{}, items, results, "replay") > 0 {
 		rep.Inconclusive("the replayed input produced no result")
 	}
 	if r := results[id]; r != nil {
